@@ -83,6 +83,16 @@
 //!   (plain mutex) every answer is "no", i.e. enabled == probe.
 //! * Pairs of lists are locked in address order, so the relative position of `a` and
 //!   `b` is part of the configuration (`lock-order:a<b|b<a`, fixed per case).
+//! * So is the placement of the HANDLES: an implementation may look at `&self` /
+//!   `&other` (e.g. order two locks by the address of the handle instead of the list).
+//!   Every thread keeps its handles in one array (`Handles`): the handle of `b` in the
+//!   middle, the handle of `a` and its clones (`clone` operation) all below or all above
+//!   it, chosen per thread and per case (`handle-order:T<i>:a<b|b<a`, part of the
+//!   configuration and of its hash / replay data). Script calls receive their lists by
+//!   value; their counterpart is a second script function that takes the operands in
+//!   the other parameter order. All combinations are enumerated for the 2-thread
+//!   configurations (for the threads that have a two-list operation), random
+//!   configurations draw them.
 //! * Exploration: depth-first over scheduling choices with replay from a fresh state
 //!   for every schedule (fresh lists, fresh handles, fresh scheduler state; the OS
 //!   threads are pooled, a thread that was leaked / abandoned is replaced). A schedule
@@ -400,7 +410,20 @@ struct Config {
     elem: ElemKind,
     init_len: usize,
     progs: Vec<Vec<Op>>,
+    /// per thread: does the handle of `a` lie below the handle of `b`
+    horder: Vec<bool>,
     origin: &'static str,
+}
+
+impl Op {
+    /// takes the locks of both lists
+    fn is_pair(self) -> bool {
+        matches!(self, Op::EqAB | Op::EqBA | Op::ConcatAB | Op::SEqAB | Op::SConcatAB)
+    }
+}
+
+fn horder_text(h: &[bool]) -> String {
+    h.iter().enumerate().map(|(t, f)| format!("T{t}:{}", if *f { "a<b" } else { "b<a" })).collect::<Vec<_>>().join(",")
 }
 
 impl Config {
@@ -413,7 +436,7 @@ impl Config {
             .join(" || ")
     }
     fn key(&self) -> String {
-        format!("{}/{}/{}", self.elem.name(), self.init_len, self.text())
+        format!("{}/{}/{}/{}", self.elem.name(), self.init_len, self.text(), horder_text(&self.horder))
     }
     fn uses_script(&self) -> bool {
         self.progs.iter().flatten().any(|o| o.is_script())
@@ -478,6 +501,7 @@ impl Config {
             .set("init_len", self.init_len as u64)
             .set("origin", self.origin)
             .set("programs", self.text())
+            .set("handle_order", horder_text(&self.horder))
             .set(
                 "resolved",
                 J::Arr(
@@ -523,6 +547,9 @@ struct SFns<E: SElem> {
     concat: TypedFunc<NoCtx, fn(List<E>, List<E>) -> List<E>>,
     contains: TypedFunc<NoCtx, fn(List<E>, E) -> bool>,
     index: TypedFunc<NoCtx, fn(List<E>, E) -> Option<u64>>,
+    /// `q == p` / `q.concat(p)` of `(p, q)`: the operands arrive in the other order
+    eq_r: TypedFunc<NoCtx, fn(List<E>, List<E>) -> bool>,
+    concat_r: TypedFunc<NoCtx, fn(List<E>, List<E>) -> List<E>>,
 }
 
 /// The harness runtime plus the monitored element type.
@@ -544,7 +571,9 @@ impl<E: SElem> SFns<E> {
              fn e(a: List[{t}], b: List[{t}]) -> bool {{ a == b }}\n\
              fn c(a: List[{t}], b: List[{t}]) -> List[{t}] {{ a.concat(b) }}\n\
              fn k(l: List[{t}], x: {t}) -> bool {{ l.contains(x) }}\n\
-             fn ix(l: List[{t}], x: {t}) -> u64? {{ l.index(x) }}\n"
+             fn ix(l: List[{t}], x: {t}) -> u64? {{ l.index(x) }}\n\
+             fn er(p: List[{t}], q: List[{t}]) -> bool {{ q == p }}\n\
+             fn cr(p: List[{t}], q: List[{t}]) -> List[{t}] {{ q.concat(p) }}\n"
         );
         let mut pkg = crate::exec::compile(&src, rt)?;
         Ok(SFns {
@@ -553,6 +582,8 @@ impl<E: SElem> SFns<E> {
             concat: pkg.get_function("c").map_err(|e| format!("get_function(c): {e}"))?,
             contains: pkg.get_function("k").map_err(|e| format!("get_function(k): {e}"))?,
             index: pkg.get_function("ix").map_err(|e| format!("get_function(ix): {e}"))?,
+            eq_r: pkg.get_function("er").map_err(|e| format!("get_function(er): {e}"))?,
+            concat_r: pkg.get_function("cr").map_err(|e| format!("get_function(cr): {e}"))?,
         })
     }
 }
@@ -652,6 +683,8 @@ struct Sched {
     shared: [usize; 2],
     full_points: bool,
     obj_len: [usize; 2],
+    /// per thread: handle of `a` below handle of `b`
+    horder: Vec<bool>,
     /// start-up phase: parking threads report to the controller instead of deciding
     startup: bool,
     /// replayed choices, then `policy`
@@ -690,6 +723,7 @@ static SCHED: Mutex<Sched> = Mutex::new(Sched {
     shared: [0, 0],
     full_points: false,
     obj_len: [0, 0],
+    horder: Vec::new(),
     startup: true,
     prefix: Vec::new(),
     policy: Policy::Lowest,
@@ -1072,15 +1106,55 @@ fn note_live_buffer(s: &mut Sched, addrs: &[usize], elem_size: usize) {
 // Worker threads
 // ---------------------------------------------------------------------------
 
+/// The handle objects of one thread. Where a handle lives is an input of the code
+/// under test (an implementation may look at `&self` / `&other`), so it is a dimension
+/// of the configuration: all handles of a thread sit in one array, the handle of `b` in
+/// the middle, the handle(s) of `a` — the original and the clones made by the `clone`
+/// operation — all below it (`a_first`: `&handle_a < &handle_b`) or all above it.
+const ARENA: usize = 9;
+const MID: usize = ARENA / 2;
+
 struct Handles<E: SElem> {
-    a: List<E>,
-    b: List<E>,
-    extra: Vec<List<E>>,
+    arena: [Option<List<E>>; ARENA],
+    a_first: bool,
+    /// index of the newest handle of `a`
+    a_top: usize,
 }
 
 impl<E: SElem> Handles<E> {
+    fn new(a: List<E>, b: List<E>, a_first: bool) -> Handles<E> {
+        let mut arena: [Option<List<E>>; ARENA] = std::array::from_fn(|_| None);
+        let a_top = if a_first { MID - 1 } else { MID + 1 };
+        arena[MID] = Some(b);
+        arena[a_top] = Some(a);
+        Handles { arena, a_first, a_top }
+    }
     fn h(&self, obj: usize) -> &List<E> {
-        if obj == 0 { self.extra.last().unwrap_or(&self.a) } else { &self.b }
+        self.arena[if obj == 0 { self.a_top } else { MID }].as_ref().expect("handle slot")
+    }
+    fn base(&self) -> usize {
+        if self.a_first { MID - 1 } else { MID + 1 }
+    }
+    /// `h = a.clone()`: later operations on `a` go through the clone
+    fn push_clone(&mut self) {
+        let c = self.h(0).clone();
+        let next = if self.a_first { self.a_top.checked_sub(1) } else { Some(self.a_top + 1).filter(|i| *i < ARENA) };
+        match next {
+            Some(i) => {
+                self.arena[i] = Some(c);
+                self.a_top = i;
+            }
+            None => drop(c),
+        }
+    }
+    /// `drop(h)`: the newest clone, if there is one; otherwise a temporary clone
+    fn pop_clone(&mut self) {
+        if self.a_top != self.base() {
+            self.arena[self.a_top] = None;
+            self.a_top = if self.a_first { self.a_top + 1 } else { self.a_top - 1 };
+        } else {
+            drop(self.h(0).clone());
+        }
     }
 }
 
@@ -1143,8 +1217,10 @@ fn exec_act<E: SElem>(h: &mut Handles<E>, act: Act, fns: &Option<Arc<SFns<E>>>) 
         }
         Act::Concat { x, y, script } => {
             let c = if script {
+                // (the script function with the operands in the other parameter order
+                // is the scripts' counterpart of the handle placement)
                 let (p, q) = (h.h(x).clone(), h.h(y).clone());
-                in_script(|| f().concat.call(p, q))
+                if h.a_first == (x == 0) { in_script(|| f().concat.call(p, q)) } else { in_script(|| f().concat_r.call(q, p)) }
             } else {
                 in_op(|| h.h(x).concat(h.h(y)))
             };
@@ -1154,7 +1230,7 @@ fn exec_act<E: SElem>(h: &mut Handles<E>, act: Act, fns: &Option<Arc<SFns<E>>>) 
         Act::Eq { x, y, script: false } => Res::Bool(in_op(|| h.h(x) == h.h(y))),
         Act::Eq { x, y, script: true } => {
             let (p, q) = (h.h(x).clone(), h.h(y).clone());
-            Res::Bool(in_script(|| f().eq.call(p, q)))
+            Res::Bool(if h.a_first == (x == 0) { in_script(|| f().eq.call(p, q)) } else { in_script(|| f().eq_r.call(q, p)) })
         }
         Act::Len { obj } => {
             if SELFTEST.load(Ordering::Relaxed) == 1 && ME.with(|m| m.get()).is_some_and(|m| m.1 == 0) {
@@ -1165,15 +1241,11 @@ fn exec_act<E: SElem>(h: &mut Handles<E>, act: Act, fns: &Option<Arc<SFns<E>>>) 
             Res::Num(in_op(|| h.h(obj).len()) as u64)
         }
         Act::CloneH => {
-            let c = h.h(0).clone();
-            h.extra.push(c);
+            h.push_clone();
             Res::Unit
         }
         Act::DropH => {
-            match h.extra.pop() {
-                Some(x) => drop(x),
-                None => drop(h.a.clone()),
-            }
+            h.pop_clone();
             Res::Unit
         }
         Act::Snap { .. } => Res::Unit,
@@ -1381,7 +1453,7 @@ fn thread_state(tid: u64) -> Option<char> {
 
 /// One trial (see above). `order_ab`: the mutex of `a` lies below that of `b` (pairs
 /// of locks are taken in address order, so the trial lists must be laid out alike).
-fn run_trial(hact: Act, hrole: CalRole, eact: Act, erole: CalRole, order_ab: bool) -> bool {
+fn run_trial(hact: Act, hrole: CalRole, eact: Act, erole: CalRole, order_ab: bool, horders: (bool, bool)) -> bool {
     let fns = CAL_FNS.lock().unwrap_or_else(|e| e.into_inner()).clone();
     if (hact.is_script() || eact.is_script()) && fns.is_none() {
         return false;
@@ -1405,7 +1477,7 @@ fn run_trial(hact: Act, hrole: CalRole, eact: Act, erole: CalRole, order_ab: boo
     }
     cal::ENTRANT_TID.store(0, Ordering::SeqCst);
     let spawn = |role: CalRole, act: Act, done: &'static std::sync::atomic::AtomicBool, entrant: bool| {
-        let mut h = Handles { a: a.clone(), b: b.clone(), extra: Vec::new() };
+        let mut h = Handles::new(a.clone(), b.clone(), if entrant { horders.1 } else { horders.0 });
         let fns = fns.clone();
         std::thread::Builder::new()
             .name("sched-trial".into())
@@ -1516,11 +1588,12 @@ fn compatible(s: &mut Sched, t: usize, list: usize) -> bool {
         };
         let grants = count(&s.threads[c]);
         let at_elem = matches!(s.threads[c].state, TState::Parked(Point::Elem));
-        let key = format!("{}#{grants}{}|{}#{gate}|{}", hact.lock_key(), if at_elem { "e" } else { "l" }, eact.lock_key(), shared[0] < shared[1]);
+        let horders = (s.horder.get(c).copied().unwrap_or(true), s.horder.get(t).copied().unwrap_or(true));
+        let key = format!("{}#{grants}{}|{}#{gate}|{}|{:?}", hact.lock_key(), if at_elem { "e" } else { "l" }, eact.lock_key(), shared[0] < shared[1], horders);
         let ok = match s.compat.get(&key) {
             Some(v) => *v,
             None => {
-                let v = run_trial(hact, CalRole::Holder { grants, at_elem }, eact, CalRole::Entrant { gate }, shared[0] < shared[1]);
+                let v = run_trial(hact, CalRole::Holder { grants, at_elem }, eact, CalRole::Entrant { gate }, shared[0] < shared[1], horders);
                 if std::env::var_os("LISTSCHED_DEBUG").is_some() {
                     eprintln!("list-sched: lock trial {key} -> {v}");
                 }
@@ -1784,6 +1857,7 @@ fn run_schedule<E: SElem>(cfg: &Config, acts: &[Vec<Act>], fns: &Option<Arc<SFns
         s.shared = [learned[0], learned[1]];
         s.full_points = full_points;
         s.obj_len = [cfg.init_len, cfg.init_len];
+        s.horder = cfg.horder.clone();
         s.generation
     };
     let deadline = Instant::now() + WATCHDOG;
@@ -1817,7 +1891,7 @@ fn run_schedule<E: SElem>(cfg: &Config, acts: &[Vec<Act>], fns: &Option<Arc<SFns
         let mut s = lock_sched();
         let mut jobs: Vec<Option<Job>> = Vec::new();
         for (t, prog) in acts.iter().enumerate() {
-            let h = Handles { a: a.clone(), b: b.clone(), extra: Vec::new() };
+            let h = Handles::new(a.clone(), b.clone(), cfg.horder.get(t).copied().unwrap_or(true));
             let prog = prog.clone();
             let fns = fns.clone();
             jobs.push(Some(Box::new(move || thread_main::<E>(generation, t, prog, h, fns))));
@@ -1966,8 +2040,11 @@ pub struct ListSched {
     rt: Option<Runtime<NoCtx>>,
     fns_u64: Option<Arc<SFns<u64>>>,
     fns_str: Option<Arc<SFns<RotoString>>>,
-    /// unordered pairs of Rust programs (indices into `progs`)
-    pairs: Vec<(u16, u16)>,
+    /// the enumerated program pairs: (program of T0, program of T1, T0 is a script
+    /// program); Rust/Rust pairs are unordered. `cum[i]` = number of (pair, handle
+    /// placement) combinations before entry i (one more element than `entries`)
+    entries: Vec<(u16, u16, bool)>,
+    cum: Vec<u64>,
     progs: Vec<Vec<Op>>,
     sprogs: Vec<Vec<Op>>,
     prelude: Vec<Config>,
@@ -2001,11 +2078,22 @@ impl ListSched {
         set_list_hook(Some(hook));
         let progs = programs(&RUST_OPS);
         let sprogs = programs(&SCRIPT_OPS);
-        let mut pairs = Vec::new();
+        let mut entries = Vec::new();
         for i in 0..progs.len() {
             for j in i..progs.len() {
-                pairs.push((i as u16, j as u16));
+                entries.push((i as u16, j as u16, false));
             }
+        }
+        for i in 0..sprogs.len() {
+            for j in 0..progs.len() {
+                entries.push((i as u16, j as u16, true));
+            }
+        }
+        let mut cum = vec![0u64];
+        for (p, q, script) in &entries {
+            let p0 = if *script { &sprogs[*p as usize] } else { &progs[*p as usize] };
+            let k = [p0, &progs[*q as usize]].iter().filter(|pr| pr.iter().any(|o| o.is_pair())).count();
+            cum.push(cum.last().unwrap() + (1u64 << k));
         }
         use Op::*;
         // hand-picked minimal configurations of the interesting classes first, so
@@ -2054,7 +2142,24 @@ impl ListSched {
         for sh in &shapes {
             for elem in elems.iter().copied() {
                 for init_len in INIT_LENS {
-                    prelude.push(Config { elem, init_len, progs: sh.clone(), origin: "prelude" });
+                    prelude.push(Config { elem, init_len, progs: sh.clone(), horder: vec![true; sh.len()], origin: "prelude" });
+                }
+            }
+        }
+        // two-list operations against each other under every handle placement
+        let pair_shapes: Vec<Vec<Vec<Op>>> = vec![
+            vec![vec![EqAB], vec![EqAB]],
+            vec![vec![EqAB], vec![EqBA]],
+            vec![vec![ConcatAB], vec![EqAB]],
+            vec![vec![ConcatAB], vec![ConcatAB]],
+            vec![vec![SEqAB], vec![EqAB]],
+            vec![vec![SConcatAB], vec![EqBA]],
+            vec![vec![CloneH, EqAB], vec![CloneH, EqAB]],
+        ];
+        for sh in &pair_shapes {
+            for bits in 0..4u32 {
+                for elem in elems.iter().copied() {
+                    prelude.push(Config { elem, init_len: 3, progs: sh.clone(), horder: vec![bits & 1 == 0, bits & 2 == 0], origin: "prelude" });
                 }
             }
         }
@@ -2068,7 +2173,8 @@ impl ListSched {
             rt: None,
             fns_u64: None,
             fns_str: None,
-            pairs,
+            entries,
+            cum,
             progs,
             sprogs,
             prelude,
@@ -2086,32 +2192,41 @@ impl ListSched {
     fn n_variants(&self) -> u64 {
         (self.elems.len() * INIT_LENS.len()) as u64
     }
-    fn n_enum_rust(&self) -> u64 {
-        self.pairs.len() as u64 * self.n_variants()
-    }
-    fn n_enum_script(&self) -> u64 {
-        (self.sprogs.len() * self.progs.len()) as u64 * self.n_variants()
-    }
     fn n_enum(&self) -> u64 {
-        self.n_enum_rust() + self.n_enum_script()
+        *self.cum.last().unwrap_or(&0) * self.n_variants()
     }
 
     /// Enumerated configuration `e` (0 <= e < n_enum): all assignments of <= 2
-    /// operations to 2 threads x element type x initial length.
+    /// operations to 2 threads x handle placement (every combination, for the threads
+    /// that have an operation on both lists) x element type x initial length.
     fn enum_config(&self, e: u64) -> Config {
         let nv = self.n_variants();
-        let (variant, progs, origin) = if e < self.n_enum_rust() {
-            let (p, q) = self.pairs[(e / nv) as usize];
-            (e % nv, vec![self.progs[p as usize].clone(), self.progs[q as usize].clone()], "enum-2x2")
-        } else {
-            let e = e - self.n_enum_rust();
-            let c = e / nv;
-            let sp = (c as usize) / self.progs.len();
-            let rp = (c as usize) % self.progs.len();
-            (e % nv, vec![self.sprogs[sp].clone(), self.progs[rp].clone()], "enum-2x2-script")
-        };
+        let (variant, c) = (e % nv, e / nv);
+        // entry i covers cum[i] .. cum[i + 1]
+        let i = self.cum.partition_point(|x| *x <= c) - 1;
+        let (p, q, script) = self.entries[i];
+        let progs = vec![if script { self.sprogs[p as usize].clone() } else { self.progs[p as usize].clone() }, self.progs[q as usize].clone()];
+        let mut bits = c - self.cum[i];
+        let horder: Vec<bool> = progs
+            .iter()
+            .map(|pr| {
+                if pr.iter().any(|o| o.is_pair()) {
+                    let f = bits & 1 == 0;
+                    bits >>= 1;
+                    f
+                } else {
+                    true
+                }
+            })
+            .collect();
         let ne = self.elems.len() as u64;
-        Config { elem: self.elems[(variant % ne) as usize], init_len: INIT_LENS[(variant / ne) as usize], progs, origin }
+        Config {
+            elem: self.elems[(variant % ne) as usize],
+            init_len: INIT_LENS[(variant / ne) as usize],
+            progs,
+            horder,
+            origin: if script { "enum-2x2-script" } else { "enum-2x2" },
+        }
     }
 
     fn random_config(&self, rng: &mut Rng) -> Config {
@@ -2136,7 +2251,8 @@ impl ListSched {
             }
             progs.push(p);
         }
-        Config { elem: *rng.pick(&self.elems), init_len: *rng.pick(&INIT_LENS), progs, origin }
+        let horder = (0..threads).map(|_| rng.bool()).collect();
+        Config { elem: *rng.pick(&self.elems), init_len: *rng.pick(&INIT_LENS), progs, horder, origin }
     }
 
     /// Case layout: [0, P) hand-picked minimal configurations; then blocks of four
@@ -2517,6 +2633,9 @@ impl Family for ListSched {
         out.tags.push(format!("elem:{}", cfg.elem.name()));
         out.tags.push(format!("init-len:{}", cfg.init_len));
         out.tags.push(format!("origin:{}", cfg.origin));
+        for (t, f) in cfg.horder.iter().enumerate() {
+            out.tags.push(format!("handle-order:T{t}:{}", if *f { "a<b" } else { "b<a" }));
+        }
         let script = cfg.uses_script();
         if script && CAL_FNS.lock().unwrap_or_else(|e| e.into_inner()).is_none() {
             match Self::fns::<Val<Yv>>(&mut self.rt, &mut self.fns_val) {
